@@ -48,8 +48,9 @@ Definition show_s (o : option str) : str := match o with Some s => s | None => l
 (* x.rstrip() / x.strip() where x may be None *)
 Definition rstrip_o (o : option str) : result str :=
   match o with Some s => Ok (rstrip_ws s) | None => Raise AttributeError end.
+(* (x or '').strip() *)
 Definition strip_o (o : option str) : result str :=
-  match o with Some s => Ok (strip_ws s) | None => Raise AttributeError end.
+  match o with Some s => Ok (strip_ws s) | None => Ok [] end.
 
 (* '%04i' % z for z >= 0 *)
 Definition fmt_04 (z : Z) : str :=
